@@ -95,7 +95,9 @@ func newC04Sys() *c04Sys {
 			panic(res.Err)
 		}
 	}
-	w2 := world.NewL2(world.L2Options{Accounts: map[string]sdk.Coins{"alice": nil, "bob": nil, "executor": nil, "admin": nil}})
+	w2 := world.NewL2(world.L2Options{Accounts: map[string]sdk.Coins{"alice": nil, "bob": nil, "executor": nil, "admin": nil},
+		// two executors are listed; the one that relays is the first, and the list is not sorted
+		Executors: world.ExecutorsWithSpare("executor")})
 	return &c04Sys{w1: w1, w2: w2}
 }
 
